@@ -5,7 +5,9 @@
 // fresh scratch directory under /tmp, exports it with an in-process Ufs,
 // mounts it with the go9p client over an xport pair and runs the operations
 // against a byte-slice model per file. Expected values come only from the model
-// and from os.ReadFile of the underlying path.
+// and from os.ReadFile of the underlying path. A case with Conns mounts several
+// clients, with different msizes / dialects, on the SAME Ufs and spreads the
+// operations over them (multi.go).
 package c14
 
 import (
@@ -15,6 +17,7 @@ import (
 	"io"
 	"os"
 	"path/filepath"
+	"strings"
 
 	"github.com/rminnich/go9p"
 	"verif/internal/hx"
@@ -56,8 +59,14 @@ type FileSpec struct {
 //	write    Handle Count Seed      file.Write(data)
 //	writeat  Handle Off Count Seed  file.WriteAt(data, Off)
 //	written  Handle Off Count Seed  file.Written(data, Off)
+//	disconnect                    the current connection is unmounted (its handles are gone); the next
+//	                              operation naming it mounts it again on a NEW connection to the same server
+//
+// Conn selects the connection of a multi-connection case (Case.Conns), taken
+// modulo their number; a connection is mounted when an operation first names it.
 type Op struct {
 	Kind   string `json:"kind"`
+	Conn   int    `json:"conn,omitempty"`
 	File   int    `json:"file,omitempty"`
 	Handle int    `json:"handle,omitempty"`
 	Mode   uint8  `json:"mode,omitempty"`
@@ -72,10 +81,18 @@ type Op struct {
 	FaultAt int    `json:"fault_at,omitempty"`
 }
 
+// ConnSpec is one connection of a case in which ONE Ufs serves several
+// connections (multi.go).
+type ConnSpec struct {
+	ClientMsize uint32 `json:"client_msize"`    // total msize this client proposes
+	Plain       bool   `json:"plain,omitempty"` // this client asks for 9P2000 (else 9P2000.u)
+}
+
 type Case struct {
 	ClientMsize uint32     `json:"client_msize"` // total msize the client proposes (MountConn gets this minus 24)
 	ServerMsize uint32     `json:"server_msize"`
-	Dotu        bool       `json:"dotu"` // server Dotu; the client always asks for 9P2000.u
+	Dotu        bool       `json:"dotu"`            // server Dotu; the client asks for 9P2000.u unless its ConnSpec says Plain
+	Conns       []ConnSpec `json:"conns,omitempty"` // several connections to the one server; empty = one connection proposing ClientMsize
 	Files       []FileSpec `json:"files"`
 	Ops         []Op       `json:"ops"`
 	FinalChunk  uint32     `json:"final_chunk"`    // buffer size of the closing sequential whole-file read
@@ -271,13 +288,28 @@ type held struct {
 	op   int
 }
 
+// connState is one connection of the case; the runner's clnt/end/u/nm/dotu/hs
+// fields always describe the connection of the operation being executed.
+type connState struct {
+	spec   ConnSpec
+	clnt   *go9p.Clnt
+	end    *xport.End
+	hs     []*handle
+	mounts int
+}
+
 type runner struct {
 	c      *Case
 	root   string
+	srv    *go9p.Ufs
+	conns  []*connState
+	cur    int
+	prev   int // connection of the previous checked operation (-1: none yet)
 	clnt   *go9p.Clnt
 	end    *xport.End // the client's end of the transport
 	u      uint64     // iounit of the negotiated msize
 	nm     uint32
+	dotu   bool // negotiated dialect of the current connection
 	models [][]byte
 	hs     []*handle
 	held   []held
@@ -299,7 +331,15 @@ func (r *runner) errf(format string, args ...interface{}) error {
 			op = fmt.Sprintf("op#%d %s handle=%d off=%d count=%d: ", r.opi, o.Kind, o.Handle, o.Off, o.Count)
 		}
 	}
-	return fmt.Errorf("msize=%d iounit=%d dotu=%v %s%s", r.nm, r.u, r.c.Dotu, op, fmt.Sprintf(format, args...))
+	where := ""
+	if len(r.conns) > 1 {
+		var ms []string
+		for _, cs := range r.conns {
+			ms = append(ms, fmt.Sprint(negotiated(cs.spec.ClientMsize, r.c.ServerMsize)))
+		}
+		where = fmt.Sprintf("connection %d of %d to one server (negotiated msizes %s) ", r.cur, len(r.conns), strings.Join(ms, "/"))
+	}
+	return fmt.Errorf("%smsize=%d iounit=%d dotu=%v %s%s", where, r.nm, r.u, r.dotu, op, fmt.Sprintf(format, args...))
 }
 
 // checkDisk compares the underlying file with the model.
@@ -344,11 +384,14 @@ func (r *runner) classify(h *handle, kind string, off, n uint64, l uint64) {
 	g := grown(h, kind, off, n, l)
 	if g != "" {
 		hx.Label(g)
-		hx.NonTrivial(r.nm, r.c.Dotu, lenClass(l, r.u), kind, g, lenClass(h.atOpen, r.u), cntClass(n, r.u), endClass(off, n, l))
+		hx.NonTrivial(r.nm, r.dotu, lenClass(l, r.u), kind, g, lenClass(h.atOpen, r.u), cntClass(n, r.u), endClass(off, n, l))
 	}
 	if nonTrivial(off, n, l, r.u) {
-		hx.NonTrivial(r.nm, r.c.Dotu, lenClass(l, r.u), kind, offClass(off, l, r.u), cntClass(n, r.u), endClass(off, n, l))
+		hx.NonTrivial(r.nm, r.dotu, lenClass(l, r.u), kind, offClass(off, l, r.u), cntClass(n, r.u), endClass(off, n, l))
 		hx.ExtraAdd("nontrivial_ops", 1)
+	}
+	if len(r.conns) > 1 {
+		r.classifyMulti(kind, n)
 	}
 }
 
@@ -410,7 +453,7 @@ func RunCase(c *Case) (err error) {
 		return fmt.Errorf("harness: %v", e)
 	}
 	defer os.RemoveAll(root)
-	r := &runner{c: c, root: root, opi: -1}
+	r := &runner{c: c, root: root, opi: -1, prev: -1}
 	for i, fs := range c.Files {
 		b := prf(fs.Seed, fs.Len)
 		if e := os.WriteFile(r.path(i), b, 0o644); e != nil {
@@ -418,34 +461,36 @@ func RunCase(c *Case) (err error) {
 		}
 		r.models = append(r.models, b)
 	}
-	r.nm = c.ClientMsize
-	if c.ServerMsize < r.nm {
-		r.nm = c.ServerMsize
+	specs := c.Conns
+	if len(specs) == 0 {
+		specs = []ConnSpec{{ClientMsize: c.ClientMsize}}
 	}
-	r.u = uint64(r.nm - iohdrsz)
-
-	srv := startUfs(root, c.Dotu, c.ServerMsize)
-	clnt, end, e := ufsrv.Mount(srv, "c14", "", c.ClientMsize-iohdrsz)
-	if e != nil {
-		end.Close()
-		return r.errf("mount failed: %v", e)
+	for _, sp := range specs {
+		if sp.ClientMsize < 64 {
+			return fmt.Errorf("harness: msize below 64 is outside this check's grid")
+		}
+		r.conns = append(r.conns, &connState{spec: sp})
 	}
-	r.clnt = clnt
-	r.end = end
+	r.srv = startUfs(root, c.Dotu, c.ServerMsize)
 	defer func() {
-		clnt.Unmount()
-		end.Close()
+		for _, cs := range r.conns {
+			if cs.clnt != nil {
+				cs.clnt.Unmount()
+				cs.end.Close()
+			}
+		}
 	}()
-	if clnt.Msize != r.nm {
-		return r.errf("negotiated msize is %d, expected min(client %d, server %d)", clnt.Msize, c.ClientMsize, c.ServerMsize)
-	}
-	if clnt.Dotu != c.Dotu {
-		return r.errf("negotiated dialect dotu=%v, server Dotu=%v", clnt.Dotu, c.Dotu)
-	}
-	hx.Label(fmt.Sprintf("dotu=%v", clnt.Dotu))
-	hx.Label(fmt.Sprintf("msize=%d", r.nm))
-	for _, m := range r.models {
-		hx.Label("initial length " + lenClass(uint64(len(m)), r.u))
+	// a single-connection case mounts at once; the connections of a
+	// multi-connection case are mounted when an operation first names them
+	if len(r.conns) == 1 {
+		if err := r.use(0); err != nil {
+			return err
+		}
+		for _, m := range r.models {
+			hx.Label("initial length " + lenClass(uint64(len(m)), r.u))
+		}
+	} else {
+		hx.ExtraAdd("multi_connection_cases", 1)
 	}
 
 	for i := range c.Ops {
@@ -462,8 +507,8 @@ func RunCase(c *Case) (err error) {
 	}
 	r.opi = -1
 	hx.ExtraAdd("ops", int64(r.nops))
-	if len(r.hs) > 0 {
-		hx.Extra("max_open_handles", maxOpen(len(r.hs)))
+	if len(r.conns) > 1 {
+		return r.finishMulti()
 	}
 
 	// every slice handed out by Clnt.Read must still hold what it held
@@ -472,8 +517,22 @@ func RunCase(c *Case) (err error) {
 			return r.errf("data returned by Clnt.Read in op#%d changed afterwards (first difference at byte %d)", h.op, firstDiff(h.got, h.copy))
 		}
 	}
-	// closing: the underlying files are what the model says, and a sequential
-	// whole-file read through a fresh handle reproduces them
+	if err := r.finalReads(r.clnt); err != nil {
+		return err
+	}
+	for _, h := range r.hs {
+		if e := h.f.Close(); e != nil {
+			return r.errf("Close of a handle on %s at the end: %v", fname(h.file), e)
+		}
+	}
+	return nil
+}
+
+// finalReads: the underlying files are what the model says, and a sequential
+// whole-file read through a fresh handle of the current connection reproduces
+// them.
+func (r *runner) finalReads(clnt *go9p.Clnt) error {
+	c := r.c
 	chunk := c.FinalChunk
 	if chunk == 0 {
 		chunk = 1
@@ -489,7 +548,11 @@ func RunCase(c *Case) (err error) {
 		var all []byte
 		// bound the number of round trips: at most ~130 reads per file
 		eff := chunk
-		if lo := uint32(len(r.models[i])/128 + 1); eff < lo {
+		per := 128
+		if len(r.conns) > 1 {
+			per = 24 // every connection reads every file
+		}
+		if lo := uint32(len(r.models[i])/per + 1); eff < lo {
 			eff = lo
 		}
 		buf := make([]byte, eff)
@@ -517,11 +580,6 @@ func RunCase(c *Case) (err error) {
 			return r.errf("final Close(%s): %v", fname(i), e)
 		}
 	}
-	for _, h := range r.hs {
-		if e := h.f.Close(); e != nil {
-			return r.errf("Close of a handle on %s at the end: %v", fname(h.file), e)
-		}
-	}
 	return nil
 }
 
@@ -538,7 +596,17 @@ func canRead(m uint8) bool  { return m&3 == oREAD || m&3 == oRDWR }
 func canWrite(m uint8) bool { return m&3 == oWRITE || m&3 == oRDWR }
 
 func (r *runner) step(o *Op) error {
+	if err := r.use(o.Conn); err != nil {
+		return err
+	}
 	switch o.Kind {
+	case "disconnect":
+		if len(r.conns) < 2 {
+			hx.ExtraAdd("skipped_ops", 1)
+			return nil
+		}
+		r.disconnect()
+		return nil
 	case "open":
 		if len(r.models) == 0 {
 			hx.ExtraAdd("skipped_ops", 1)
